@@ -2,6 +2,7 @@ package gen
 
 import (
 	"strconv"
+	"strings"
 )
 
 // Step is one step of a position inside a tree: a map key or a list index.
@@ -228,6 +229,12 @@ func (c TreeCfg) Bulk(r *Rand, m map[string]any) {
 var DefaultKeys = []string{"a", "b", "c", "d", "e", "f"}
 var WideKeys = []string{"a", "b", "c", "d", "e", "f", "g", "h", "i", "j", "k", "l", "m"}
 var PlainStrs = []string{"x", "y", "hello", "v1", "prod", "has space", "é", "1", "true", "null", "a.b", "", "0x10", "- x", "k: v", "#c"}
+var LongNonASCII = []string{
+	strings.Repeat("設定値テキスト", 20),       // 140 characters, 420 bytes
+	strings.Repeat("Привет, мир! ", 15), // 195 characters, ~330 bytes
+	strings.Repeat("é", 200),            // 200 characters, 400 bytes
+	strings.Repeat("日本", 45) + "x",      // 91 characters, 271 bytes
+}
 var DollarStrs = []string{"$$", "$$x", "a$$b", "$$merge:a", "$FOO", "${X}", "$(cmd)", "cost: $$5"}
 
 func DefaultTreeCfg() TreeCfg {
